@@ -9,6 +9,7 @@ import NitroVerif.Model.RefCount
     start <t> close <s>          -> `at CLOSE_DEC`     (`bad-op` when no held reference on `s` remains)
     start <t> gc                 -> `at GC_TRY_LOCK`
     step <t>                     -> `at <POINT>` | `ret true` | `ret false` | `ret`
+                                    (`Close` retires in two steps: `at CLOSE_RETIRE` → `at CLOSE_RETIRE2` → `at CLOSE_GC`)
     state                        -> `refs=<r1,..> live=<list> retired=<list> lastgc=<n> sent=<list> flag=<0|1>`
   `step` on an idle thread, `start` on a busy one, an unknown thread or snapshot, and anything else
   is `bad-op` (state unchanged).  The proof-only action `Act.step true` is never taken.
